@@ -363,6 +363,20 @@ def operations(mesh, tier):
         op("container(merge=True).stack", lambda m, ext=ext: fem.MeshContainer([m, m.translate(ext, axis=0)], merge=True).stack(), lambda v, m: 2 * v, post="merge:None")
         op("stack(self,self)+merge_cells", lambda m: fem.mesh.stack([m, m]).merge_duplicate_cells(), post="same-cells-set")
         op("disconnect", lambda m: m.disconnect(), post="disconnect")
+        # a COPY that is changed and then merged through the documented alias `sweep` (and by the full name): the copy's own
+        # geometry is merged, the mesh it was copied from is left alone
+        def _copy_scaled(m, how):
+            src_pts = m.points.copy()
+            new = m.copy(points=m.points * 2.0) if how.startswith("copy(points)") else m.copy()
+            if not how.startswith("copy(points)"):
+                new.points[:] = new.points * 2.0
+            out = new.sweep() if how.endswith("sweep") else new.merge_duplicate_points()
+            if not np.array_equal(m.points, src_pts):
+                raise AssertionError("the mesh a copy was taken from was modified by merging the copy")
+            return out
+
+        for how in ("copy>scale>sweep", "copy(points)>sweep", "copy>scale>merge_duplicate_points"):
+            op(how, lambda m, how=how: _copy_scaled(m, how), lambda v, m: v * 2.0 ** m.dim)
         op("merge(decimals=2)", lambda m: m.merge_duplicate_points(decimals=2), post="merge:2")
         if dim in (2, 3) and ct in LINEAR and np.abs(mesh.points - np.round(mesh.points)).max() < 1e-9:
             # integer lattice + its copy rotated by 90 degrees about its lower corner (coordinates equal only up to
